@@ -13,7 +13,11 @@
 #include "obj.h"
 #include "mc.h"
 #include <string.h>
+#include <stddef.h>
 #include <stdlib.h>
+
+/* what a schedule object holds before its first key-setting call (and what the oracles' fresh objects hold) */
+#define PRIOR_BYTE (g_paint < 0 ? 0xA5 : g_paint)
 
 static uint8_t KEYS[2][48];
 
@@ -57,6 +61,7 @@ static void m_reset(void)
 {
     arena_reset();
     memset(&MW, 0, sizeof(MW));
+    memset(&MW.ks, PRIOR_BYTE, sizeof(MW.ks));      /* the caller's schedule object is uninitialised memory before set_key */
     if (m_par && !par_init(CK_MANTIS, m_be, &MW.po)) engine_error("par init failed");
 }
 
@@ -129,7 +134,7 @@ static void m_apply(int op, int check)
     {
         uint8_t img[256], fresh[256]; size_t il = m_image(img, sizeof(img)), fl;
         if (!m_par) {
-            MantisKey_t f; memset(&f, 0, sizeof(f));
+            MantisKey_t f; memset(&f, PRIOR_BYTE, sizeof(f));
             mantis_set_key(&f, KEYS[MW.ki], 16, (unsigned)MW.rounds, MW.mode ? MANTIS_ENCRYPT : MANTIS_DECRYPT);
             mantis_set_tweak(&f, MW.tweak, 8);
             memcpy(fresh, &f, sizeof(f)); fl = sizeof(f);
@@ -137,9 +142,9 @@ static void m_apply(int op, int check)
                 m_report("differs-from-fresh-schedule", op, "schedule image differs from set_key(%s)+set_tweak(last): got %s want %s",
                          MW.mode ? "ENCRYPT" : "DECRYPT", hexs(img, il), hexs(fresh, fl));
         } else {
-            const MantisKey_t *ctx = MW.po.raw.ctx; MantisKey_t f; memset(&f, 0, sizeof(f));
+            const MantisKey_t *ctx = MW.po.raw.ctx; MantisKey_t f; memset(&f, PRIOR_BYTE, sizeof(f));
             mantis_set_key(&f, KEYS[MW.ki], 16, (unsigned)MW.rounds, MW.mode ? MANTIS_ENCRYPT : MANTIS_DECRYPT);
-            if (memcmp(ctx, &f, sizeof(f)) != 0) m_report("differs-from-fresh-schedule", op, "parallel object's schedule differs from a fresh set_key in the current mode");
+            if (memcmp(ctx, &f, offsetof(MantisKey_t, rounds) + sizeof(unsigned)) != 0) m_report("differs-from-fresh-schedule", op, "parallel object's schedule differs from a fresh set_key in the current mode");
         }
     }
     /* (b) behaviour == specification in the current mode with the last tweak, over a block family */
@@ -230,6 +235,7 @@ static void t_reset(void)
 {
     arena_reset();
     memset(&TW, 0, sizeof(TW));
+    memset(&TW.k128, PRIOR_BYTE, sizeof(TW.k128)); memset(&TW.k64, PRIOR_BYTE, sizeof(TW.k64));   /* uninitialised memory before set_tweaked_key */
     TW.ksoff = t_bs;
     if (t_ctr && !ctr_init(t_c, t_be, &TW.co)) engine_error("ctr init failed");
 }
@@ -248,8 +254,8 @@ static int t_validate_layout(void)
     if ((const uint8_t *)s + slen > arena_find(TW.co.raw.ctx)->ptr + arena_find(TW.co.raw.ctx)->size) return 0;
     if (rounds < 30 || rounds > 56) return 0;
     al = t_defined_image(s, a);
-    if (t_c == CK_S128) { memset(&f128, 0, sizeof(f128)); skinny128_set_tweaked_key(&f128, KEYS[0], 16); bl = t_defined_image(&f128, b); }
-    else { memset(&f64, 0, sizeof(f64)); skinny64_set_tweaked_key(&f64, KEYS[0], 8); bl = t_defined_image(&f64, b); }
+    if (t_c == CK_S128) { memset(&f128, PRIOR_BYTE, sizeof(f128)); skinny128_set_tweaked_key(&f128, KEYS[0], 16); bl = t_defined_image(&f128, b); }
+    else { memset(&f64, PRIOR_BYTE, sizeof(f64)); skinny64_set_tweaked_key(&f64, KEYS[0], 8); bl = t_defined_image(&f64, b); }
     return al == bl && memcmp(a, b, al) == 0;
 }
 
@@ -416,8 +422,8 @@ static void t_apply(int op, int check)
         const void *s = t_sched(&slen, &rounds);
         Skinny128TweakedKey_t f128; Skinny64TweakedKey_t f64; const void *fresh;
         int want_rounds = t_c == CK_S128 ? (TW.klen == 16 ? 48 : 56) : (TW.klen == 8 ? 36 : 40);
-        if (t_c == CK_S128) { memset(&f128, 0, sizeof(f128)); skinny128_set_tweaked_key(&f128, KEYS[TW.ki], (unsigned)TW.klen); skinny128_set_tweak(&f128, TW.tweak, 16); fresh = &f128; }
-        else { memset(&f64, 0, sizeof(f64)); skinny64_set_tweaked_key(&f64, KEYS[TW.ki], (unsigned)TW.klen); skinny64_set_tweak(&f64, TW.tweak, 8); fresh = &f64; }
+        if (t_c == CK_S128) { memset(&f128, PRIOR_BYTE, sizeof(f128)); skinny128_set_tweaked_key(&f128, KEYS[TW.ki], (unsigned)TW.klen); skinny128_set_tweak(&f128, TW.tweak, 16); fresh = &f128; }
+        else { memset(&f64, PRIOR_BYTE, sizeof(f64)); skinny64_set_tweaked_key(&f64, KEYS[TW.ki], (unsigned)TW.klen); skinny64_set_tweak(&f64, TW.tweak, 8); fresh = &f64; }
         il = t_defined_image(s, img); fl = t_defined_image(fresh, fimg);
         if (rounds != want_rounds) t_report("round-count", op, "schedule has %d rounds, specification says %d for this tweakey size", rounds, want_rounds);
         if (il != fl || memcmp(img, fimg, il) != 0)
